@@ -59,6 +59,7 @@ func (t *taskState) unmarshalOp(i int, po *prepOp) {
 	var full []byte
 	var tailCopy []byte
 	var decoded reflect.Value
+	t.holdBeforeReuse(i, po)
 	if po.op.Buf > 0 {
 		full = t.ringBuf(po.op.Buf, len(po.data))
 		copy(full, po.data)
@@ -120,6 +121,9 @@ func (t *taskState) unmarshalOp(i int, po *prepOp) {
 				t.fail(i, po, "alias", "the decoded value shares memory with the input buffer at "+path)
 			}
 		}
+	}
+	if decoded.IsValid() && decoded.Type().Elem() == po.ti.T {
+		t.checkHeld(i, po, decoded)
 	}
 	if string(in) != string(po.data) {
 		t.fail(i, po, "alias", "Unmarshal modified its input bytes")
@@ -529,4 +533,95 @@ func min(a, b int) int {
 // names mapped back (SymTwin -> Sym): error texts name the struct types.
 func twinErrText(err error) string {
 	return strings.ReplaceAll(errText(err), "Twin", "")
+}
+
+// heldVal is something the caller still holds: the result of an earlier
+// Unmarshal, or - for a target that has since been decoded into again - what
+// the caller kept of its previous value (kept := v.Items; Unmarshal(data, &v)).
+type heldVal struct {
+	slot  int // target slot (0 = a fresh variable)
+	op    int
+	label string
+	// keep is the held value itself. Its regions are taken from its state at the
+	// moment of each check, never remembered: memory it referenced once and no
+	// longer does (a later decode into a shared pointee replaced a slice) is
+	// free, and the allocator may hand the address to anybody.
+	keep reflect.Value
+}
+
+func (t *taskState) holdsApply() bool {
+	switch t.x.prop {
+	case "C10", "C11", "C19":
+		return true
+	}
+	return false
+}
+
+// holdBeforeReuse: the caller keeps a shallow copy of the value a target holds
+// before decoding into it again (the copy shares slices, maps and pointees
+// with the target's previous value).
+func (t *taskState) holdBeforeReuse(i int, po *prepOp) {
+	t.keptNow, t.keptExp = reflect.Value{}, reflect.Value{} // a copy belongs to one decode only
+	if !t.holdsApply() || po.op.Target == 0 {
+		return
+	}
+	tgt, ok := t.targets[po.op.Target]
+	if !ok || tgt.Type().Elem() != po.ti.T {
+		return
+	}
+	kc := reflect.New(po.ti.T)
+	kc.Elem().Set(tgt.Elem())
+	t.hold(heldVal{slot: po.op.Target, op: i, label: "what the caller kept of the previous value of the target", keep: kc})
+	t.keptNow, t.keptExp = kc, world.Clone(kc.Elem())
+}
+
+// checkHeld: the results of different Unmarshal calls share no memory they can
+// change through - unless the caller passed the same target again. (Sharing
+// would let a write through one result, or a later decode into it, change the
+// other; nothing decoded earlier may influence a later result.)
+func (t *taskState) checkHeld(i int, po *prepOp, decoded reflect.Value) {
+	if !t.holdsApply() {
+		return
+	}
+	regs := world.MutableRegions(decoded.Elem())
+	slot := po.op.Target
+	// only for records in which every field occurs once: when a field occurs twice
+	// (concatenated or damaged records) the first occurrence may legitimately write
+	// into memory that the second one then replaces
+	if t.keptNow.IsValid() && slot > 0 && t.keptNow.Type() == decoded.Type() && po.op.Pat == "" {
+		if ch, path := world.AbandonedChanged(t.keptNow.Elem(), t.keptExp, regs); ch {
+			kind := "alias"
+			if t.x.prop == "C10" {
+				kind = "leak"
+			}
+			t.fail(i, po, kind, "memory the target no longer uses, but the caller still holds from its previous value (kept := v.Items; Unmarshal(data, &v)), was written to: "+path)
+		}
+	}
+	t.keptNow, t.keptExp = reflect.Value{}, reflect.Value{}
+	for _, h := range t.held {
+		if slot > 0 && h.slot == slot {
+			continue // the same target: re-using its memory is the point
+		}
+		if h.keep.Pointer() == decoded.Pointer() {
+			continue
+		}
+		if hit, x, y := world.RegionsOverlap(regs, world.MutableRegions(h.keep.Elem())); hit {
+			kind := "alias"
+			if t.x.prop == "C10" {
+				kind = "leak"
+			}
+			t.fail(i, po, kind, fmt.Sprintf("the decoded value shares memory with %s (operation %d): %s <-> %s", h.label, h.op, x.Path, y.Path))
+			break
+		}
+	}
+	t.hold(heldVal{slot: slot, op: i, label: "the result of an earlier Unmarshal", keep: decoded})
+}
+
+// hold remembers a value; the caller holds on to the 24 most recent ones.
+func (t *taskState) hold(h heldVal) {
+	if len(t.held) >= 24 {
+		copy(t.held, t.held[1:])
+		t.held = t.held[:len(t.held)-1]
+	}
+	t.held = append(t.held, h)
 }
